@@ -33,6 +33,7 @@ func (c *cont) Pop() item {
 
 type ad struct {
 	flip    int
+	prio    map[int]int // the priority every handle has according to the calls made (also after it left the heap)
 	flavour string
 	h       heapz.Heap[item]
 	other   heapz.Heap[item] // source of the foreign handle 0
@@ -62,6 +63,7 @@ func (a *ad) Reset(s json.RawMessage) error {
 	a.other = heapz.New[item](0, less)
 	a.foreign = a.other.Push(item{P: 1, H: 0})
 	a.el = map[int]*heapz.Element[item]{}
+	a.prio = map[int]int{}
 	a.s = heapz.NewSlice[item](0, less)
 	a.c = &cont{}
 	a.next = 1
@@ -100,6 +102,7 @@ func (a *ad) Apply(op core.Op) (interface{}, error) {
 		p := core.ArgInt(op, 0)
 		h := a.next
 		a.next++
+		a.prio[h] = p
 		switch a.flavour {
 		case "heap":
 			a.el[h] = a.h.Push(item{P: p, H: h})
@@ -109,11 +112,25 @@ func (a *ad) Apply(op core.Op) (interface{}, error) {
 			heapz.Push[item](a.c, item{P: p, H: h})
 		}
 		return []int{h}, nil
+	case "Repush":
+		// PushElement with the very element object that left the heap earlier (heap flavour); the other flavours have
+		// no element objects: the same (priority, tag) value is pushed again
+		h := core.ArgInt(op, 0)
+		switch a.flavour {
+		case "heap":
+			a.h.PushElement(a.el[h])
+		case "slice":
+			a.s.Push(item{P: a.prio[h], H: h})
+		case "std":
+			heapz.Push[item](a.c, item{P: a.prio[h], H: h})
+		}
+		return []int{}, nil
 	case "InitFrom":
 		ps := core.ArgInts(op, 0)
 		items := make([]item, len(ps))
 		for i, p := range ps {
 			items[i] = item{P: p, H: i + 1}
+			a.prio[i+1] = p
 		}
 		a.next = len(ps) + 1
 		switch a.flavour {
@@ -180,6 +197,7 @@ func (a *ad) Apply(op core.Op) (interface{}, error) {
 		return []int{}, nil
 	case "Fix":
 		h, p := core.ArgInt(op, 0), core.ArgInt(op, 1)
+		a.prio[h] = p
 		switch a.flavour {
 		case "heap":
 			e := a.elem(h)
@@ -258,6 +276,7 @@ func collect(h *heapz.Heap[item]) []*heapz.Element[item] {
 }
 
 func (a *ad) pushItem(it item) {
+	a.prio[it.H] = it.P
 	switch a.flavour {
 	case "heap":
 		a.el[it.H] = a.h.Push(it)
@@ -376,9 +395,12 @@ func (a *ad) Drain() interface{} {
 	return out
 }
 
-type gen struct{ n int }
+type gen struct {
+	n    int
+	gone []int // handles known to be outside the heap (they were handed to Remove and not pushed again)
+}
 
-func (g *gen) Init(rng *rand.Rand) json.RawMessage { g.n = 0; return json.RawMessage(`{}`) }
+func (g *gen) Init(rng *rand.Rand) json.RawMessage { g.n = 0; g.gone = nil; return json.RawMessage(`{}`) }
 func (g *gen) Next(rng *rand.Rand, step int) core.Op {
 	if step == 0 && rng.Intn(2) == 0 {
 		k := rng.Intn(12)
@@ -406,8 +428,23 @@ func (g *gen) Next(rng *rand.Rand, step int) core.Op {
 		return core.MkOp("Pop")
 	case x < 13:
 		return core.MkOp("Peek")
+	case x == 13 && len(g.gone) > 0:
+		k := rng.Intn(len(g.gone))
+		hh := g.gone[k]
+		g.gone = append(g.gone[:k], g.gone[k+1:]...)
+		return core.MkOp("Repush", hh)
 	case x < 16:
-		return core.MkOp("Remove", h())
+		hh := h()
+		if hh > 0 {
+			dup := false
+			for _, y := range g.gone {
+				dup = dup || y == hh
+			}
+			if !dup {
+				g.gone = append(g.gone, hh)
+			}
+		}
+		return core.MkOp("Remove", hh)
 	case x < 19:
 		return core.MkOp("Fix", h(), 1+rng.Intn(5))
 	default:
